@@ -53,6 +53,53 @@ def run(R):
                     writes.append((n, k_))
     init = [n for n in rc.cfg.nodes if n.kind == 'stmt' and isinstance(n.ast, ast.Assign) and any(
         isinstance(t, ast.Name) and t.id == 'ret' for t in n.ast.targets) and isinstance(n.ast.value, ast.Dict)]
+    # ------------------------------------------------------------------ PRV.1 the settings are collected in a dict of this call's own
+    R.ob('C20.PRV.1', 'the settings are layered in a dict created by this call: what one call wrote (an environment override, a value from a file) cannot '
+                      'be the "platform default" of a later call')
+
+    def freshness(cx_, e, depth=0):
+        """'fresh' | 'shared: <why>' | 'unknown'"""
+        if isinstance(e, (ast.Dict, ast.DictComp)):
+            return 'fresh'
+        if isinstance(e, ast.Call):
+            fn_t = ast.unparse(e.func)
+            if fn_t == 'dict' or callee_attr(e) == 'copy' or fn_t.endswith('deepcopy'):
+                return 'fresh'
+            from .common import resolve_call
+            q = resolve_call(P, cx_, e)
+            if q is None and isinstance(e.func, ast.Attribute):
+                # a method of an object built on the spot (`Platform().m()`): all repository methods of that name
+                qs = [q_ for q_ in P.funcs if q_.endswith('.' + e.func.attr) and P.funcs[q_].cls]
+                q = qs[0] if len(qs) == 1 else None
+            if q and q in P.funcs and depth < 3:
+                cx2 = ctx(R, q)
+                rs = [r for r in returns(cx2) if r.ast.value is not None]
+                vs = []
+                for r in rs:
+                    v = r.ast.value
+                    if isinstance(v, ast.Name):
+                        srcs = [s_.expr for s_ in cx2.sources(r, v) if s_.kind == 'expr']
+                        vs += [freshness(cx2, x, depth + 1) for x in srcs] or ['unknown']
+                    elif isinstance(v, ast.Attribute):
+                        vs.append(f'shared: {q.rsplit(".", 1)[1]}() returns `{ast.unparse(v)}`, an object kept between calls')
+                    else:
+                        vs.append(freshness(cx2, v, depth + 1))
+                sh = [v for v in vs if v.startswith('shared')]
+                return sh[0] if sh else ('fresh' if vs and all(v == 'fresh' for v in vs) else 'unknown')
+        if isinstance(e, ast.Attribute):
+            return f'shared: `{ast.unparse(e)}` is an object kept between calls'
+        return 'unknown'
+    ret_defs = [n for n in rc.cfg.nodes if n.kind == 'stmt' and isinstance(n.ast, ast.Assign) and any(isinstance(t, ast.Name) and t.id == 'ret' for t in n.ast.targets)]
+    inst = RC + ' :: the result dict is created per call'
+    fr = [(n, freshness(rc, n.ast.value)) for n in ret_defs]
+    sh = [(n, v) for (n, v) in fr if v.startswith('shared')]
+    if sh:
+        R.fail('C20.PRV.1', inst, RC, sh[0][0].ast, f'the dict the settings are written into is not created by this call ({sh[0][1][8:]}): file values, environment '
+               'overrides and resolved locations of one call stay in it and are what the next call starts from instead of the platform defaults', site(rc, sh[0][0].ast))
+    elif fr and all(v == 'fresh' for (_n, v) in fr):
+        R.ok('C20.PRV.1', inst, site(rc, fr[0][0].ast))
+    else:
+        R.defer('read_client_conf: where the result dict comes from could not be read (C20.PRV.1 undecided)')
     R.need(len(init) == 1, 'read_client_conf: the result dict literal was not found')
     d = init[0].ast.value
     keys = {k.value for k in d.keys if isinstance(k, ast.Constant)}
